@@ -518,7 +518,9 @@ bool ts_node_has_changes(TSNode self) {
 }
 
 bool ts_node_has_error(TSNode self) {
-  return ts_subtree_error_cost(ts_node__subtree(self)) > 0;
+  // An error leaf (e.g. `UNEXPECTED 'x'`) is created with an error cost of zero,
+  // so the cost alone does not identify it as a syntax error.
+  return ts_subtree_error_cost(ts_node__subtree(self)) > 0 || ts_node_is_error(self);
 }
 
 bool ts_node_is_error(TSNode self) {
